@@ -209,6 +209,11 @@ def trace_cfgs(quick, rng):
         {'name': 'rk4-1phase-split', 'phases': ('B1',), 'iterator': 'rk4', 'segments': [20.0, 30.0]},
         {'name': 'euler-2phase-split-vratio', 'phases': ('B1', 'B2'), 'gammas': [0.15, 0.12], 'iterator': 'euler', 'segments': [300.0, 700.0, 2000.0], 'vratio': 1.25},
         {'name': 'euler-ramp', 'phases': ('B1',), 'iterator': 'euler', 'segments': [2e3], 'T': (lambda t: 650.0 + 0.05 * t)},
+        # molar volume of the precipitate changed between two solve calls, with and without a reset in between
+        {'name': 'euler-volume-change', 'phases': ('B1',), 'iterator': 'euler', 'segments': [300.0, 300.0],
+         'between': [[('setVolumeBeta', ((0.4e-9) ** 3 / 1.2, 1, 4, 'B1'))]]},
+        {'name': 'euler-volume-change-alpha', 'phases': ('B1', 'B2'), 'gammas': [0.15, 0.12], 'iterator': 'euler', 'segments': [200.0, 200.0, 200.0],
+         'between': [[('setVolumeAlpha', ((0.4e-9) ** 3 * 1.15, 1, 4))], [('setVolumeBeta', ((0.4e-9) ** 3 / 1.3, 1, 4, 'B2'))]]},
     ]
     if not quick:
         cfgs += [
@@ -227,7 +232,7 @@ def case_from_mbcall(m, rec):
     phs = []
     for p in range(P):
         pp = m.precipitateParameters[p]
-        phs.append((m.matrixParameters.volume.Vm, pp.volume.Vm, pp.nucleation.volumeFactor, rec['x'][p], rec['size'][p], rec['xbeta'][p],
+        phs.append((rec['vmA'], rec['vmB'][p], rec['volFactor'][p], rec['x'][p], rec['size'][p], rec['xbeta'][p],
                     bool(rec['prevVolFrac'][p] == 1), bool(pp.infinitePrecipitateDiffusion), rec['prevFconc'][p], rec['psd'][p]))
     o = rec['out']
     return {'kind': 'trace', 'P': P, 'E': E, 'minDens': m.constraints.minNucleateDensity, 'minComp': m.constraints.minComposition,
@@ -264,7 +269,7 @@ def oracle_trace(tr, tol=1e-9):
         sites = [type(m.precipitateParameters[p].nucleation.description).name for p in range(P)]
         case = {'kind': 'trace', 'P': P, 'E': m.numberOfElements, 'minDens': m.constraints.minNucleateDensity, 'minComp': m.constraints.minComposition,
                 'x0': np.array(m.pData.composition[0]), 'prev': mb['compIn'],
-                'phases': [(m.matrixParameters.volume.Vm, m.precipitateParameters[p].volume.Vm, m.precipitateParameters[p].nucleation.volumeFactor,
+                'phases': [(aft['vmA'], aft['vmB'][p], aft['volFactor'][p],
                             xs[p], 0.5 * (bef['bounds'][p][1:] + bef['bounds'][p][:-1]), mb['xbeta'][p], bool(bef['slice']['volFrac'][p] == 1),
                             bool(m.precipitateParameters[p].infinitePrecipitateDiffusion), bef['slice']['fconc'][p], bef['psd'][p]) for p in range(P)],
                 'sites': sites,
